@@ -42,8 +42,8 @@ SEQ_PREDS = ['nonempty', 'len_lt2']
 
 def budget(tier):
     if tier == 'thorough':
-        return {'seeds': 60000, 'wall': 840, 'chunk': 100}
-    return {'seeds': 5000, 'wall': 150, 'chunk': 40}
+        return {'seeds': 400000, 'wall': 900, 'chunk': 100}
+    return {'seeds': 30000, 'wall': 200, 'chunk': 50}
 
 
 def gen_chain(rng, max_stages=4):
@@ -210,10 +210,11 @@ REF_LIMIT = 400
 def ref_prefix(chain, src, k, stages=None):
     """-> (outputs list (<= k), exhausted?, pulls) or None if the reference exceeds its budget"""
     c = iter_ref.Counting(src['items'], src['inf'], limit=REF_LIMIT)
-    it = iter_ref.pipeline(c, chain['sub'], chain['sentinel'], chain['stages'] if stages is None else stages)
     out = []
     exhausted = False
     try:
+        # (windowed_iter pulls at construction, so building the pipeline can already hit the budget)
+        it = iter_ref.pipeline(c, chain['sub'], chain['sentinel'], chain['stages'] if stages is None else stages)
         for _ in range(k):
             try:
                 out.append(next(it))
@@ -361,9 +362,13 @@ def _mode_alternate(case, V, st, digests):
     spec = W.B.spec(spec_recipe(chain))
     srcs = [W.source(s) for s in case['sources']]
     refs = []
-    for s in case['sources']:
-        c = iter_ref.Counting(s['items'], s['inf'], limit=REF_LIMIT)
-        refs.append([iter_ref.pipeline(c, chain['sub'], chain['sentinel'], chain['stages']), c])
+    try:
+        for s in case['sources']:
+            c = iter_ref.Counting(s['items'], s['inf'], limit=REF_LIMIT)
+            refs.append([iter_ref.pipeline(c, chain['sub'], chain['sentinel'], chain['stages']), c])
+    except RuntimeError:
+        st('reference_budget_skip')
+        return
 
     def go():
         its = [iter(W.G.glom(srcs[0], spec)), iter(W.G.glom(srcs[1], spec))]
